@@ -39,7 +39,9 @@
 //! Templates (`egen::templates`) supply the shapes the algebraic rules need (shared sub-terms, literal
 //! neighbourhoods, IN-list algebra, negations, boolean CASE, `x*1`, `x*0`, …).
 //!
-//! Open findings (each contradicts the statement; /verif/known_findings.json, cases under
+//! Findings (each contradicts the statement; five are FIXED in /repo by now — guarantee-maybenull-single-value,
+//! physical-unwrap-cast-regex-null, simplify-predicates-literal-left, boolean-case-loses-laziness, concat-all-null-args —
+//! their cases are plain regressions and `known_shape` no longer knows their shapes; the others are open; /verif/known_findings.json, cases under
 //! /verif/regressions/C04/c04/, candidate repairs /verif/fixes/C04-*.diff; shapes excluded by `known_shape`):
 //! log-power-inverse, guarantee-maybenull-single-value, unwrap-try-cast, unwrap-cast-decimal-to-int,
 //! physical-unwrap-cast-regex-null, inlist-algebra-null, simplify-predicates-literal-left,
@@ -293,49 +295,9 @@ fn resolve_guarantees(case: &Case, used: &[u8]) -> Vec<ResolvedGuar> {
 fn known_shape(case: &Case) -> Option<String> {
     let e = &case.expr;
     let mut sig: Option<String> = None;
-    // guarantee findings
     let used = e.columns();
-    if used.iter().all(|i| (*i as usize) < case.cols.len()) {
-        for g in resolve_guarantees(case, &used) {
-            if g.kind != GKind::MaybeNull {
-                continue;
-            }
-            // [v, v]; an unbounded end is normalised to the type's extreme value, so (-inf, MIN] and [MAX, +inf) count too
-            let spec_ty = case.cols[g.col as usize].ty;
-            let (tmin, tmax) = match spec_ty {
-                Ty::Date32 => (Some(i32::MIN as i128), Some(i32::MAX as i128)),
-                t => match t.int_range() {
-                    Some((a, b)) => (Some(a), Some(b)),
-                    None => (None, None),
-                },
-            };
-            let single = match (&g.lo, &g.hi) {
-                (Some(a), Some(b)) => a == b,
-                (None, Some(V::I(b))) => Some(*b) == tmin,
-                (Some(V::I(a)), None) => Some(*a) == tmax,
-                _ => false,
-            };
-            if single {
-                return Some("guarantee-maybenull-single-value".to_string());
-            }
-        }
-    }
-    // PhysicalExprSimplifier: CAST(x) <regex op> NULL
-    if case.mode.physical {
-        e.visit(&mut |n| {
-            let hit = match n {
-                // (the left operand may become a bare CAST through other rewrites)
-                E::Similar { pat, .. } => matches!(**pat, E::Lit(_, V::Null)),
-                E::Bin(op, _, r) if op.is_regex() => matches!(**r, E::Lit(_, V::Null)),
-                _ => false,
-            };
-            if hit && sig.is_none() {
-                sig = Some("physical-unwrap-cast-regex-null".to_string());
-            }
-        });
-        if sig.is_some() {
-            return sig;
-        }
+    if used.iter().any(|i| (*i as usize) >= case.cols.len()) {
+        return None;
     }
     // two IN lists over the same needle where the needle may be NULL or a list holds a NULL item: IN-list
     // intersection / union / except fold to constants ignoring NULLs
@@ -416,56 +378,6 @@ fn known_shape(case: &Case) -> Option<String> {
             return Some("unwrap-try-cast".to_string());
         }
     }
-    // boolean searched CASE whose later WHENs / THENs / ELSE can fail: rewritten to AND/OR, which evaluates them eagerly
-    {
-        let tys: Vec<Ty> = case.cols.iter().map(|c| c.ty).collect();
-        let may_fail = |x: &E| {
-            let mut f = false;
-            x.visit(&mut |n| match n {
-                E::Bin(Op::Div | Op::Mod, l, _) if !ty_of(l, &|i| tys[i as usize]).is_float() => f = true,
-                E::Cast { try_: false, e: inner, to } => {
-                    let from = ty_of(inner, &|i| tys[i as usize]);
-                    let infallible = to.is_str()
-                        || (from == Ty::Bool && to.is_int())
-                        || (from.is_int() && to.is_float())
-                        || (from == Ty::F32 && *to == Ty::F64)
-                        || match (from.int_range(), to.int_range()) {
-                            (Some((a, b)), Some((c, d))) => c <= a && b <= d,
-                            _ => false,
-                        };
-                    if !infallible {
-                        f = true
-                    }
-                }
-                E::Func(Fun::Power | Fun::Substr, _) => f = true,
-                _ => {}
-            });
-            f
-        };
-        e.visit(&mut |n| {
-            // boolean coalesce / nvl is first rewritten to a CASE
-            if let E::Func(Fun::Coalesce | Fun::Nvl, args) = n {
-                let boolean = args.first().map(|a| ty_of(a, &|i| tys[i as usize]) == Ty::Bool).unwrap_or(false);
-                if boolean && args.iter().skip(1).any(|a| may_fail(a)) && sig.is_none() {
-                    sig = Some("boolean-case-loses-laziness".to_string());
-                }
-            }
-            if let E::Case { base: None, whens, els } = n {
-                // boolean CASE, or CASE over literal outputs (which `CASE .. END = literal` turns into a boolean CASE)
-                let boolean = whens.first().map(|(_, t)| ty_of(t, &|i| tys[i as usize]) == Ty::Bool).unwrap_or(false)
-                    || (whens.iter().all(|(_, t)| matches!(t, E::Lit(..))) && els.as_deref().map(|x| matches!(x, E::Lit(..))).unwrap_or(true));
-                if boolean {
-                    let later = whens.iter().skip(1).any(|(w, _)| may_fail(w)) || whens.iter().any(|(_, t)| may_fail(t)) || els.as_deref().map(|x| may_fail(x)).unwrap_or(false);
-                    if later && sig.is_none() {
-                        sig = Some("boolean-case-loses-laziness".to_string());
-                    }
-                }
-            }
-        });
-        if sig.is_some() {
-            return sig;
-        }
-    }
     // unary minus of a signed integer together with a guarantee (a column pinned to MIN becomes a literal; NegativeExpr
     // wraps for arrays but fails for scalars)
     if resolve_guarantees(case, &used).iter().any(|g| g.kind == GKind::NotNull && g.lo.is_some() && g.lo == g.hi) {
@@ -481,37 +393,7 @@ fn known_shape(case: &Case) -> Option<String> {
             return sig;
         }
     }
-    // concat whose arguments may all fold to NULL literals
-    e.visit(&mut |n| {
-        if let E::Func(Fun::Concat, args) = n {
-            // safe only when some argument certainly survives NULL-dropping: a non-NULL literal, or a plain column
-            // (no NULL guarantee in play)
-            let null_guar = case.mode.guarantees.iter().any(|g| g.kind == GKind::Null);
-            let survives = |a: &E| matches!(a, E::Lit(_, v) if !v.is_null()) || (matches!(a, E::Col(_)) && !null_guar);
-            if !args.iter().any(survives) && sig.is_none() {
-                sig = Some("concat-all-null-args".to_string());
-            }
-        }
-    });
-    if sig.is_some() {
-        return sig;
-    }
-    // simplify_predicates: a conjunct `literal <op> column`
-    if case.mode.predicates {
-        let mut conj: Vec<&E> = vec![];
-        fn split<'a>(e: &'a E, out: &mut Vec<&'a E>) {
-            if let E::Bin(Op::And, l, r) = e {
-                split(l, out);
-                split(r, out);
-            } else {
-                out.push(e);
-            }
-        }
-        split(e, &mut conj);
-        if conj.len() >= 2 && conj.iter().any(|c| matches!(c, E::Bin(op, l, r) if op.is_cmp() && matches!(**l, E::Lit(..)) && matches!(**r, E::Col(_)))) {
-            return Some("simplify-predicates-literal-left".to_string());
-        }
-    }
+    // power(b, log(b, x)) / log(b, power(b, x))
     e.visit(&mut |n| {
         if let E::Func(f, args) = n {
             if args.len() == 2 {
